@@ -107,13 +107,15 @@ def _symmetry(ctx, P):
     ok = False
     if len(ins) == 1 and ins[0].loops:
         lp = ins[0].loops[-1]
-        key = loop_range_key(lp, asub)
-        m = re.fullmatch(r"for\(0; (\w+) < (.+)\.vin\.size\(\)\)", key)
-        arg = xkey(call_args(ins[0].expr)[0], asub)
-        ok = bool(m) and loop_is_total(lp) and not in_loop_guards(ins[0], lp) and \
-            re.fullmatch(r"(?:std::pair\{)?std::make_pair\(&%s\.vin\[%s\]\.prevout, newit\)\}?" % (re.escape(m.group(2)), m.group(1)), arg) is not None and \
-            (m.group(2) in ("newit.GetTx()", "(*newit).GetTx()") or [show(v) for _, v in local_values(add, m.group(2))] == ["newit.GetTx()"])
-    ctx.ob("addNewTransaction/spends", "PROVENANCE", "addNewTransaction records every input's outpoint of the new entry in mapNextTx (complete index loop, unconditional)", ok,
+        rng, ivar = index_loop(lp, asub)          # `for (i = 0; i < T.vin.size(); i++)` or `for (txin : T.vin)`
+        arg = xkey(call_args(ins[0].expr)[0], site_subst(asub, ins[0]))
+        m = re.fullmatch(r"(.+)\.vin", rng or "")
+        T = m.group(1) if m else None
+        forms = ["&each(%s).prevout" % rng] + (["&%s[%s].prevout" % (rng, ivar)] if ivar else [])
+        ok = T is not None and loop_is_total(lp) and not in_loop_guards(ins[0], lp) and \
+            any(re.fullmatch(r"(?:std::pair\{)?std::make_pair\(%s, newit\)\}?" % re.escape(fm), arg) for fm in forms) and \
+            (T in ("newit.GetTx()", "(*newit).GetTx()") or [show(v) for _, v in local_values(add, T)] == ["newit.GetTx()"])
+    ctx.ob("addNewTransaction/spends", "PROVENANCE", "addNewTransaction records every input's outpoint of the new entry in mapNextTx (complete loop over all inputs, unconditional)", ok,
            ins[0].where if ins else add.where, {"loop": loop_range_key(ins[0].loops[-1], asub) if ins and ins[0].loops else None})
     ers = sites(rem, lambda e: callee(e) == "indirectmap::erase" and show(call_obj(e)) == "mapNextTx", P)
     ok = False
@@ -145,8 +147,7 @@ def _apply(ctx, P):
     ok = False
     if len(a) == 1 and len(ins) == 1 and a[0].loops and ins[0].loops and a[0].loops[-1] is ins[0].loops[-1]:
         lp = a[0].loops[-1]
-        m = re.fullmatch(r"for\(0; (\w+) < changeset\.m_entry_vec\.size\(\)\)", loop_range_key(lp, sub))
-        ok = bool(m) and loop_is_total(lp) and not [g for g in in_loop_guards(a[0], lp) + in_loop_guards(ins[0], lp) if g.kind != "post"] and ins[0].line < a[0].line
+        ok = index_loop(lp, sub)[0] == "changeset.m_entry_vec" and loop_is_total(lp) and not [g for g in in_loop_guards(a[0], lp) + in_loop_guards(ins[0], lp) if g.kind != "post"] and ins[0].line < a[0].line
         src = [show(v) for _, v in local_values(f, "node_handle")] if ok else []
         ok = ok and any(re.fullmatch(r"changeset\.m_to_add\.extract\(\w+\)", t) for t in src)
     ctx.ob("Apply/add-all", "PROVENANCE", "every staged entry (changeset->m_entry_vec, taken out of m_to_add) is inserted into mapTx and handed to addNewTransaction", ok, f.where)
@@ -164,7 +165,7 @@ def _block(ctx, P):
         xkey(call_args(rc[0].expr)[0], site_subst(sub, rc[0])) == "*each(vtx)"
     ctx.ob("removeForBlock/conflicts", "ORDER", "removeForBlock calls removeConflicts(*tx) for every transaction of the block (complete loop, unconditional inside it)", ok, rc[0].where)
     outer = F.mk_and([g.formula(sub) for g in rc[0].guards if g.kind != "post" and g not in in_loop_guards(rc[0], lp)])
-    gb, _, un = F.bind_atoms(outer, {"HAS_SPENDS": "mapNextTx.size()", "HAS_TX": "mapTx.size()"})
+    gb, _, un = F.bind_atoms(outer, {"HAS_SPENDS": ("mapNextTx.empty()", False), "HAS_TX": ("mapTx.empty()", False)})
     ctx.ob("removeForBlock/not-skipped", "LADDER", "the block loop runs whenever the mempool holds any transaction or spend", F.counterexample(F.parse("HAS_SPENDS || HAS_TX"), gb) is None,
            rc[0].where, {"guard": F.fshow(outer)})
     ssub = site_subst(sub, ru[0])
